@@ -6,9 +6,6 @@ set_option linter.unusedVariables false
 namespace Pool.C05
 open Pool.Gen.C05
 
-/-- a batch without the volatile Sign-message data (`ServerNonces`, `PreviousOutputs`) -/
-def Batch.core (b : Batch) : Batch := { b with nonces := [], prevOuts := [] }
-
 structure Release where
   batch : Option Batch
   verifiedAt : Option St
